@@ -79,7 +79,58 @@ func runC16(l *core.Ledger) {
 	c16Y8(l, g)
 	c16Y9(l, g)
 	c16Y10(l, g)
+	c16Y11(l, g, "C16-Y11")
 	_ = table
+}
+
+// c16Y11: the request and reply messages of a method may be declared in another
+// package (imported proto files). The only way a Go type name for them reaches
+// the emitted text with its package qualifier - and with the import registered -
+// is GeneratedFile.QualifiedGoIdent. The bare GoIdent.GoName of a method's Input
+// or Output compiles only while the message lives in the generated file's package.
+func c16Y11(l *core.Ledger, g *gen.Generator, rule string) {
+	l.Rule(rule, "the Go type of a method's request or reply message enters the emitted text only through GeneratedFile.QualifiedGoIdent (which qualifies an imported message and registers the import); no generator function reads method.Input/Output.GoIdent.GoName")
+	info := g.Pkg.TypesInfo
+	isMethodMsg := func(e ast.Expr) bool {
+		se, ok := ast.Unparen(e).(*ast.SelectorExpr)
+		if !ok || (se.Sel.Name != "Input" && se.Sel.Name != "Output") {
+			return false
+		}
+		t := info.TypeOf(se.X)
+		if p, ok := t.(*types.Pointer); ok {
+			t = p.Elem()
+		}
+		n, ok := t.(*types.Named)
+		return ok && n.Obj().Name() == "Method" && n.Obj().Pkg() != nil && strings.HasSuffix(n.Obj().Pkg().Path(), "compiler/protogen")
+	}
+	nq, nbad := 0, 0
+	for _, f := range g.Pkg.Syntax {
+		fname := l.Prog.Fset.File(f.Pos()).Name()
+		if strings.HasSuffix(fname, "_test.go") {
+			continue
+		}
+		ast.Inspect(f, func(n ast.Node) bool {
+			switch x := n.(type) {
+			case *ast.CallExpr:
+				if se, ok := x.Fun.(*ast.SelectorExpr); ok && se.Sel.Name == "QualifiedGoIdent" && len(x.Args) == 1 {
+					if a, ok := ast.Unparen(x.Args[0]).(*ast.SelectorExpr); ok && a.Sel.Name == "GoIdent" && isMethodMsg(a.X) {
+						nq++
+						l.OK(rule, fmt.Sprintf("gengorums/qualified#%d", nq), x.Pos(), "message type named through QualifiedGoIdent")
+						return false
+					}
+				}
+			case *ast.SelectorExpr:
+				if x.Sel.Name == "GoName" {
+					if a, ok := ast.Unparen(x.X).(*ast.SelectorExpr); ok && a.Sel.Name == "GoIdent" && isMethodMsg(a.X) {
+						nbad++
+						l.Bad(rule, fmt.Sprintf("gengorums/unqualified#%d", nbad), x.Pos(), "the bare Go name of a method's "+strings.ToLower(ast.Unparen(a.X).(*ast.SelectorExpr).Sel.Name)+" message is used ("+types.ExprString(x)+"): for a message imported from another proto package the emitted type has no package qualifier and the import is not registered - the generated file does not compile")
+					}
+				}
+			}
+			return true
+		})
+	}
+	l.Floor(rule, nq, 3, "message types named through QualifiedGoIdent")
 }
 
 // ---------------------------------------------------------------------------
@@ -328,6 +379,15 @@ func mapRangeIdiom(l *core.Ledger, g *gen.Generator, f genFunc, rs *ast.RangeStm
 	body := rs.Body.List
 	le := collectLoopEffects(info, body)
 	onlyAppends := le.mapInsert == 0 && len(le.returns) == 0 && len(le.calls) == 0 && le.other == 0 && len(le.appendTo) == 1
+	// whatever the shape of the body: an expression evaluated in map order (a condition, an
+	// initialiser, the value that is inserted or appended) must not work on the generated file -
+	// protogen names clashing imports in the order in which identifiers are first qualified,
+	// and text is emitted in the order of the calls
+	if !(len(body) == 1 && isAddImportStmt(body[0])) {
+		if what := touchesGeneratedFile(g, rs.Body); what != "" {
+			return false, "an expression evaluated in map order works on the generated file (" + what + "): identifiers are qualified - and clashing imports numbered - in iteration order, even if the text is put in order afterwards"
+		}
+	}
 	// (a) insert-only
 	if le.mapInsert > 0 && len(le.appendTo) == 0 && len(le.returns) == 0 && len(le.calls) == 0 && le.other == 0 {
 		return true, "(a) body only inserts into a map"
@@ -403,6 +463,91 @@ func mapRangeIdiom(l *core.Ledger, g *gen.Generator, f genFunc, rs *ast.RangeStm
 		}
 	}
 	return false, "body creates output, calls functions or appends to an unsorted result"
+}
+
+func isAddImportStmt(st ast.Stmt) bool {
+	es, ok := st.(*ast.ExprStmt)
+	if !ok {
+		return false
+	}
+	ce, ok := es.X.(*ast.CallExpr)
+	if !ok {
+		return false
+	}
+	id, ok := ce.Fun.(*ast.Ident)
+	return ok && id.Name == "addImport"
+}
+
+// holdsGeneratedFile: t is *protogen.GeneratedFile or a struct (pointer) with such a field.
+func holdsGeneratedFile(t types.Type, depth int) bool {
+	if t == nil || depth > 3 {
+		return false
+	}
+	if p, ok := t.(*types.Pointer); ok {
+		if n, ok := p.Elem().(*types.Named); ok && n.Obj().Name() == "GeneratedFile" && n.Obj().Pkg() != nil && strings.HasSuffix(n.Obj().Pkg().Path(), "compiler/protogen") {
+			return true
+		}
+		return holdsGeneratedFile(p.Elem(), depth+1)
+	}
+	if st, ok := t.Underlying().(*types.Struct); ok {
+		for i := 0; i < st.NumFields(); i++ {
+			if holdsGeneratedFile(st.Field(i).Type(), depth+1) {
+				return true
+			}
+		}
+	}
+	return false
+}
+
+// touchesGeneratedFile reports a call inside n that is handed the generated
+// file (as receiver or argument, directly or inside a struct), or that reaches
+// such a call through functions of the generator package.
+func touchesGeneratedFile(g *gen.Generator, n ast.Node) string {
+	info := g.Pkg.TypesInfo
+	decls := map[types.Object]*ast.FuncDecl{}
+	for _, f := range g.Pkg.Syntax {
+		for _, d := range f.Decls {
+			if fd, ok := d.(*ast.FuncDecl); ok && fd.Body != nil {
+				decls[info.Defs[fd.Name]] = fd
+			}
+		}
+	}
+	seen := map[*ast.FuncDecl]bool{}
+	var scan func(n ast.Node, depth int) string
+	scan = func(n ast.Node, depth int) string {
+		found := ""
+		ast.Inspect(n, func(m ast.Node) bool {
+			if found != "" {
+				return false
+			}
+			ce, ok := m.(*ast.CallExpr)
+			if !ok {
+				return true
+			}
+			if se, ok := ce.Fun.(*ast.SelectorExpr); ok && holdsGeneratedFile(info.TypeOf(se.X), 0) {
+				found = types.ExprString(ce.Fun)
+				return false
+			}
+			for _, a := range ce.Args {
+				if holdsGeneratedFile(info.TypeOf(a), 0) {
+					found = types.ExprString(ce.Fun) + " is handed the generated file"
+					return false
+				}
+			}
+			if fn := resolvedCall(info, ce); fn != nil && depth < 5 {
+				if fd := decls[fn]; fd != nil && !seen[fd] {
+					seen[fd] = true
+					if w := scan(fd.Body, depth+1); w != "" {
+						found = fn.Name() + " → " + w
+						return false
+					}
+				}
+			}
+			return true
+		})
+		return found
+	}
+	return scan(n, 0)
 }
 
 func sortedNext(info *types.Info, fnBody *ast.BlockStmt, rs *ast.RangeStmt, dst types.Object) bool {
@@ -1000,6 +1145,32 @@ func rejectOfBody(g *gen.Generator, list []ast.Stmt, depth int) ([]gen.Formula, 
 }
 
 func evalValidator(g *gen.Generator, list []ast.Stmt, depth int) (rej, fall gen.Formula, err error) {
+	return evalValidatorEnv(g, list, depth, map[string]ast.Expr{})
+}
+
+// substLocals replaces the validator's local variables (x := <side-effect-free
+// expression over the method>) by their definitions, so that conditions over
+// them are in the option-predicate language.
+func substLocals(e ast.Expr, env map[string]ast.Expr) ast.Expr {
+	if len(env) == 0 {
+		return e
+	}
+	switch x := e.(type) {
+	case *ast.Ident:
+		if d, ok := env[x.Name]; ok {
+			return d
+		}
+	case *ast.ParenExpr:
+		return &ast.ParenExpr{Lparen: x.Lparen, X: substLocals(x.X, env), Rparen: x.Rparen}
+	case *ast.UnaryExpr:
+		return &ast.UnaryExpr{OpPos: x.OpPos, Op: x.Op, X: substLocals(x.X, env)}
+	case *ast.BinaryExpr:
+		return &ast.BinaryExpr{X: substLocals(x.X, env), OpPos: x.OpPos, Op: x.Op, Y: substLocals(x.Y, env)}
+	}
+	return e
+}
+
+func evalValidatorEnv(g *gen.Generator, list []ast.Stmt, depth int, env map[string]ast.Expr) (rej, fall gen.Formula, err error) {
 	if depth > 6 {
 		return nil, nil, fmt.Errorf("validators nested too deeply")
 	}
@@ -1042,7 +1213,7 @@ func evalValidator(g *gen.Generator, list []ast.Stmt, depth int) (rej, fall gen.
 			}
 			return rej, fall, nil
 		case *ast.BlockStmt:
-			r, f, err := evalValidator(g, x.List, depth)
+			r, f, err := evalValidatorEnv(g, x.List, depth, env)
 			if err != nil {
 				return nil, nil, err
 			}
@@ -1062,17 +1233,17 @@ func evalValidator(g *gen.Generator, list []ast.Stmt, depth int) (rej, fall gen.
 			if x.Init != nil {
 				return nil, nil, fmt.Errorf("validateOptions: if with an init statement that is not a validator call")
 			}
-			c, err := g.ParseFormula(x.Cond)
+			c, err := g.ParseFormula(substLocals(x.Cond, env))
 			if err != nil {
 				return nil, nil, err
 			}
-			ra, fa, err := evalValidator(g, x.Body.List, depth)
+			ra, fa, err := evalValidatorEnv(g, x.Body.List, depth, env)
 			if err != nil {
 				return nil, nil, err
 			}
 			rb, fb := gen.Formula(gen.Const(false)), gen.Formula(gen.Const(true))
 			if x.Else != nil {
-				rb, fb, err = evalValidator(g, []ast.Stmt{x.Else}, depth)
+				rb, fb, err = evalValidatorEnv(g, []ast.Stmt{x.Else}, depth, env)
 				if err != nil {
 					return nil, nil, err
 				}
@@ -1093,13 +1264,13 @@ func evalValidator(g *gen.Generator, list []ast.Stmt, depth int) (rej, fall gen.
 				}
 				var cond gen.Formula = gen.Const(false)
 				for _, e := range c.List {
-					fe, err := g.ParseFormula(e)
+					fe, err := g.ParseFormula(substLocals(e, env))
 					if err != nil {
 						return nil, nil, err
 					}
 					cond = gen.Or(cond, fe)
 				}
-				rc, fc, err := evalValidator(g, c.Body, depth)
+				rc, fc, err := evalValidatorEnv(g, c.Body, depth, env)
 				if err != nil {
 					return nil, nil, err
 				}
@@ -1110,7 +1281,7 @@ func evalValidator(g *gen.Generator, list []ast.Stmt, depth int) (rej, fall gen.
 			rd, fd := gen.Formula(gen.Const(false)), gen.Formula(gen.Const(true))
 			if deflt != nil {
 				var err error
-				rd, fd, err = evalValidator(g, deflt.Body, depth)
+				rd, fd, err = evalValidatorEnv(g, deflt.Body, depth, env)
 				if err != nil {
 					return nil, nil, err
 				}
@@ -1119,6 +1290,18 @@ func evalValidator(g *gen.Generator, list []ast.Stmt, depth int) (rej, fall gen.
 			f = gen.Or(f, gen.And(none, fd))
 			seq(r, f)
 		case *ast.EmptyStmt:
+		case *ast.AssignStmt:
+			// a local that names a side-effect-free expression over the method
+			id, isID := x.Lhs[0].(*ast.Ident)
+			if x.Tok != token.DEFINE || len(x.Lhs) != 1 || len(x.Rhs) != 1 || !isID {
+				return nil, nil, fmt.Errorf("validateOptions: unsupported assignment %s", types.ExprString(x.Lhs[0]))
+			}
+			if _, isCall := ast.Unparen(x.Rhs[0]).(*ast.CallExpr); !isCall {
+				if _, isBin := ast.Unparen(x.Rhs[0]).(*ast.BinaryExpr); !isBin {
+					return nil, nil, fmt.Errorf("validateOptions: local %s is not defined by a predicate expression", id.Name)
+				}
+			}
+			env[id.Name] = substLocals(x.Rhs[0], env)
 		default:
 			return nil, nil, fmt.Errorf("validateOptions: unsupported statement %T", st)
 		}
